@@ -54,18 +54,29 @@ func apply(v *measure.VC04, op string) string {
 		v.Batch(n)
 		return "ok"
 	case 'F':
-		return drv.B01(v.Flush())
+		r := v.Flush()
+		if !v.WaitClean() {
+			return "TIMEOUT"
+		}
+		return drv.B01(r)
 	case 'G':
 		r := v.MergeMem()
+		if !v.WaitClean() {
+			return "TIMEOUT"
+		}
 		return drv.B01(r)
 	case 'M':
 		r := v.Merge(parseSel(op[1:]), false)
-		if !v.WaitGone() {
+		if !v.WaitClean() || !v.WaitGone() {
 			return "TIMEOUT"
 		}
 		return drv.B01(r)
 	case 'H':
-		return drv.B01(v.Merge(parseSel(op[1:]), true))
+		r := v.Merge(parseSel(op[1:]), true)
+		if !v.WaitClean() {
+			return "TIMEOUT"
+		}
+		return drv.B01(r)
 	case 'R':
 		v.Release()
 		if !v.WaitGone() {
